@@ -227,16 +227,64 @@ func VH_C03_context_hooks() {
 	TimestampFunc = vTime
 	TimeFieldFormat = TimeFormatUnix
 	l := New(w).Hook(vActHook{id: 1, mode: 1}).With().Timestamp().Logger().Hook(vActHook{id: 2, mode: 1})
+	want := []string{"level", "f", "hook1", "time", "hook2", "message"}
+	switch zzverif.Choice(3) {
+	case 1:
+		// Timestamp() again further down the chain: every registration is a hook of its own
+		l = l.With().Timestamp().Logger()
+		want = []string{"level", "f", "hook1", "time", "hook2", "time", "message"}
+	case 2:
+		l = l.Level(DebugLevel).With().Str("c", "v").Timestamp().Logger().Hook(vActHook{id: 3, mode: 1})
+		want = []string{"level", "c", "f", "hook1", "time", "hook2", "time", "hook3", "message"}
+	}
 	l.Info().Str("f", "v").Msg("m")
 	zzverif.Assert(len(w.calls) == 1, "one write")
 	line := w.calls[0].buf
 	got := vTopKeys(line[:len(line)-1])
-	want := []string{"level", "f", "hook1", "time", "hook2", "message"}
-	zzverif.Assert(len(got) == len(want), "timestamp hook adds exactly one field")
+	zzverif.Assert(len(got) == len(want), "every registered hook (each Timestamp() included) adds exactly its field")
 	for i := range want {
-		zzverif.Assert(got[i] == want[i], "hook fields appear in hook registration order (Timestamp is a hook appended by With().Timestamp())")
+		zzverif.Assert(i < len(got) && got[i] == want[i], "hook fields appear in hook registration order (Timestamp is a hook appended by With().Timestamp())")
 	}
 	zzverif.Reach("C03/context-hooks")
+}
+
+// A hook that logs through ANOTHER logger, before or after a hook that discards the event: the
+// discarded event is not written anywhere, the nested event is complete and its own.
+type vNestHook struct{ other *Logger }
+
+func (h vNestHook) Run(e *Event, l Level, msg string) {
+	h.other.Warn().Str("n", "1").Msg("nested")
+}
+
+func VH_C03_discard_nested() {
+	vHookLog = nil
+	w, w2 := &vWriter{}, &vWriter{}
+	other := New(w2)
+	l := New(w)
+	discards := true
+	switch zzverif.Choice(3) {
+	case 0:
+		l = l.Hook(vActHook{id: 1, mode: 2}, vNestHook{&other})
+	case 1:
+		l = l.Hook(vNestHook{&other}, vActHook{id: 1, mode: 2})
+	case 2:
+		l = l.Hook(vActHook{id: 1, mode: 1}, vNestHook{&other})
+		discards = false
+	}
+	l.Info().Str("a", "b").Msg("m")
+	if discards {
+		zzverif.Assert(len(w.calls) == 0, "an event a hook discards is not written")
+	} else {
+		zzverif.Assert(len(w.calls) == 1, "one write")
+		line := w.calls[0].buf
+		got := vTopKeys(line[:len(line)-1])
+		zzverif.Assert(len(got) == 4 && got[0] == "level" && got[1] == "a" && got[2] == "hook1" && got[3] == "message", "the outer event keeps its layout when a hook logs through another logger")
+	}
+	zzverif.Assert(len(w2.calls) == 1, "the nested event is written once, to its own logger")
+	if len(w2.calls) == 1 {
+		zzverif.Assert(string(w2.calls[0].buf) == "{\"level\":\"warn\",\"n\":\"1\",\"message\":\"nested\"}\n", "the nested event is complete and carries only its own fields")
+	}
+	zzverif.Reach("C03/discard-nested")
 }
 
 // Siblings: hooks attached to one child must never show up in (or replace those of) a sibling,
